@@ -21,7 +21,7 @@ PROP = {'title': 'bitfield is observationally a set of enumerators',
                'sources': ['harness/C10.cpp', 'harness/C10_b.cpp', 'harness/C10_c.cpp', 'harness/C10_d.cpp'],
                'libs': [],
                'flavour': 'asan'}],
- 'deadline': {'quick': 300, 'thorough': 1500},
+ 'deadline': {'quick': 600, 'thorough': 1500},
  'rule': 'nested loops over explicit domains: all 2^n subsets for n<=9 enumerators (family of empty/full/singletons/co-singletons/'
          'prefixes/suffixes/even/odd/per-word sets/word-boundary pairs for n=16,17,33,64; boundary members only for 33 and 64 in the quick '
          'tier) x word types u8,u16,u32,u64; per subset: 10 ways of construction, ~ and self operations, set/get/operator[]/proxy per '
@@ -48,6 +48,12 @@ PROP = {'title': 'bitfield is observationally a set of enumerators',
                  'object(no_init) and arbitrary words written through object(array_type) / array() expose raw storage and are outside the set '
                  'abstraction (only copies of another bitfield\'s array are used)',
                  'the state of a moved-from proxy is not inspected',
+                 'audit: the number of times init() invokes its function is not promised by the documentation; a count different from '
+                 'the number of enumerators is recorded as counter info:construct:init_calls and is never a verdict (formerly signature '
+                 'construct:init_calls)',
+                 'the number and layout of storage words is an implementation detail: it is read only as a deduplication key for depth-3 '
+                 'expression trees and to choose between the signature suffixes :padding_bits_observable and :eq/hash/is_subset_eq_same_members '
+                 'of an observationally established violation',
                  'depth-3 expression trees are enumerated modulo identical operand storage (operators are pure functions of their operands)',
                  'hash is only required to be equal for equal sets; collisions between different sets are counted as information',
                  'underlying_value and output are not part of the statement and not checked']}
